@@ -19,7 +19,7 @@ import (
 
 func init() {
 	register("C08",
-		"NONCE: cipherState.nonce is written only by the deferred closures of Encrypt/Decrypt (exactly +1, in a defer, hence on every exit) and by InitializeKey (=0, together with a new secretKey and cipher, so a nonce never restarts under the same key); AEAD Seal/Open are called only from Encrypt/Decrypt with a nonce buffer filled from cipherState.nonce; rotateKey derives the next key from an HKDF keyed by the old key and re-initialises with it. ROT-SIB: the deferred closures of Encrypt and Decrypt are structurally identical (same increment, same comparison against keyRotationInterval, same rotateKey call), so both ends rotate at the same record count. PAIR: WriteMessage encrypts exactly twice with sendCipher (2-byte header, body) and ReadHeader/ReadBody decrypt exactly once each with recvCipher; no other function uses the transport ciphers; every Encrypt output of WriteMessage is stored into the pending record on every path to a return (a refused or failed write never consumes a nonce); encHeaderSize = lengthHeaderSize + macSize. TAINT-WIRE: everything written to a transport writer or to the handshake act buffer is an Encrypt/EncryptAndHash result, the cleartext version byte, or a public/masked ephemeral key; the pending-record slices only ever hold Encrypt results. DUPLEX (as C05): the read path and the write path of Machine touch disjoint fields and Encrypt seals into a fresh buffer, so a pending record is never overwritten by an incoming one. Not decided: that ciphertexts differ (cryptographic), decryption 'to exactly what was written' as a property of streams (follows from ROT-SIB + PAIR + the AEAD).",
+		"NONCE: cipherState.nonce is written only by the deferred closures of Encrypt/Decrypt (exactly +1, in a defer, hence on every exit) and by InitializeKey (=0, together with a new secretKey and cipher, so a nonce never restarts under the same key); AEAD Seal/Open are called only from Encrypt/Decrypt with a nonce buffer filled from cipherState.nonce; rotateKey derives the next key from an HKDF keyed by the old key and re-initialises with it. ROT-SIB: the deferred closures of Encrypt and Decrypt are structurally identical (same increment, same comparison against keyRotationInterval, same rotateKey call), so both ends rotate at the same record count. KEYSEP (as C02/C04): split() gives the two directions different keys from one HKDF expansion, mirrored between the roles. PAIR: every successful return of ReadHeader/ReadBody has passed its Decrypt and of WriteMessage both Encrypts; WriteMessage encrypts exactly twice with sendCipher (2-byte header, body) and ReadHeader/ReadBody decrypt exactly once each with recvCipher; no other function uses the transport ciphers; every Encrypt output of WriteMessage is stored into the pending record on every path to a return (a refused or failed write never consumes a nonce); encHeaderSize = lengthHeaderSize + macSize. TAINT-WIRE: everything written to a transport writer or to the handshake act buffer is an Encrypt/EncryptAndHash result, the cleartext version byte, or a public/masked ephemeral key; the pending-record slices only ever hold Encrypt results. DUPLEX (as C05): the read path and the write path of Machine touch disjoint fields and Encrypt seals into a fresh buffer, so a pending record is never overwritten by an incoming one. Not decided: that ciphertexts differ (cryptographic), decryption 'to exactly what was written' as a property of streams (follows from ROT-SIB + PAIR + the AEAD).",
 		[]string{"ChaCha20-Poly1305 is a secure AEAD; HKDF-SHA256 is a PRF; binary.LittleEndian.PutUint64 writes its argument"},
 		runC08)
 	register("C02",
@@ -158,6 +158,37 @@ func runC08(c *Checker) {
 	for name, m := range map[string]map[*ssa.Function]int{"sendCipher.Decrypt": usesOf(dec, fSendC), "recvCipher.Encrypt": usesOf(enc, fRecvC)} {
 		c.decide(len(m) == 0, "PAIR", name+"|unused", wm.Pos(), "never used in the wrong direction", name+" is used: a cipher state advances in the wrong direction")
 	}
+	// ... on every path: a successful return of ReadHeader / ReadBody has passed its Decrypt and a
+	// successful return of WriteMessage both Encrypts (a shortcut for a special size - e.g. an empty
+	// body - leaves one side's counter behind the other's, and skips the tag check)
+	for _, pr := range []struct {
+		fn   *ssa.Function
+		prim *ssa.Function
+		want int
+	}{{rh, dec, 1}, {rb, dec, 1}, {wm, enc, 2}} {
+		calls := findCalls(pr.fn, func(ci ssa.CallInstruction) bool { return ci.Common().StaticCallee() == pr.prim })
+		bad := ""
+		for _, call := range calls {
+			allInstrs(pr.fn, func(in ssa.Instruction) {
+				ret, ok := in.(*ssa.Return)
+				if !ok || bad != "" || ret.Block().Comment == "recover" {
+					return
+				}
+				succ := false
+				for _, v := range expandValues(ret.Results[len(ret.Results)-1]) {
+					if isNilConst(v) {
+						succ = true
+					}
+				}
+				if succ && pathFromEntry(pr.fn, ret, func(i2 ssa.Instruction) bool { return i2 == ssa.Instruction(call) }) {
+					bad = w.pos(instrPos(ret))
+				}
+			})
+		}
+		c.decide(bad == "" && len(calls) == pr.want, "PAIR", pr.fn.Name()+"|every successful return has passed "+pr.prim.Name(), pr.fn.Pos(),
+			fmt.Sprintf("%d %s call(s), none skippable on a success path", len(calls), pr.prim.Name()),
+			pr.fn.Name()+" can succeed at "+bad+" without having called "+pr.prim.Name()+": the nonce counters of the two ends diverge (every later record fails) and a tag goes unchecked")
+	}
 	// every record encrypted by WriteMessage becomes the pending record: no exit after an
 	// Encrypt (which has advanced the nonce) that leaves its output unsent
 	{
@@ -207,7 +238,10 @@ func runC08(c *Checker) {
 		e, _ := constant.Int64Val(eh.Val())
 		c.decide(e == l+m && l == 2 && m == 16, "PAIR", "const|encHeaderSize = lengthHeaderSize + macSize", token.NoPos, fmt.Sprintf("%d = %d + %d", e, l, m), fmt.Sprintf("header constants disagree: %d vs %d + %d", e, l, m))
 	}
-	c.floor("PAIR", 7)
+	c.floor("PAIR", 10)
+	// the two directions use different keys (as C02/C04 KEYSEP): with one key for both, record n of
+	// one direction and record n of the other share key and nonce
+	ruleKEYSEP(c)
 	// the pending record and the receive buffers are separate memory (as C05 DUPLEX): a pending
 	// ciphertext that aliases the read side is overwritten before it is flushed
 	ruleDUPLEX(c)
@@ -547,8 +581,9 @@ func ruleTaintWire(c *Checker, rule string) {
 
 func runC02(c *Checker) {
 	// "a prefix of what was written, or an error" is also a statement about the stream layer on top of
-	// the records: counts, retained remainders, pending-record handling (C15, C16) are part of it
-	importLayers(c, "C15", "C16")
+	// the records: counts, retained remainders, pending-record handling (C15, C16) and the lock-step of the
+	// two ends' record counters with a tag check on every record (C08 PAIR/NONCE) are part of it
+	importLayers(c, "C15", "C16", "C08")
 	w := c.w
 	enc := mboxFunc(c, "(*mailbox.cipherState).Encrypt")
 	dec := mboxFunc(c, "(*mailbox.cipherState).Decrypt")
